@@ -54,9 +54,10 @@ const (
 )
 
 // rawValueKeys: members whose value ogen keeps as raw JSON through
-// jsonschema.RawValue / Enum (convertYAMLtoRawJSON), plus "x-…" extension values
-// are yaml.Node copies. The main family uses no alias below them.
-var rawValueKeys = []string{"enum", "default", "example", "value", "const"}
+// jsonschema.RawValue / Enum (convertYAMLtoRawJSON): enum, default, example,
+// Example.value, Link.parameters values (everything below "links"); "const" is
+// listed for symmetry. The main family uses no alias below them.
+var rawValueKeys = []string{"enum", "default", "example", "value", "const", "links"}
 
 type styleCase struct {
 	Fam   string        `json:"fam"`
